@@ -507,6 +507,11 @@ class CallMixin:
         return bound, missing
 
     def call_repo(self, st, info, args, kwargs, node):
+        h = self.reg.externals.get('repo:' + info.key)
+        if h is not None and not (self.cur_info is not None and self.cur_info.key == info.key and st.depth == 0):
+            # an assumed contract given as a handler (functions whose calling convention is too dynamic to verify)
+            self.used_externals.add('repo:' + info.key)
+            return h(self, st, args, kwargs, node)
         c = self.reg.contract_for(info.key)
         use_contract = c is not None and c.use_at_calls and not (self.cur_contract is c and st.depth == 0)
         if use_contract:
@@ -737,6 +742,8 @@ class CallMixin:
             return [(st, res[0][1])]
         if name == 'head':
             snap = st.ghost.get('$head')
+            if len(e.args) == 2:
+                snap = st.ghost.get('$head%d' % e.args[1].value)    # head(expr, k): state at the head of loop k
             if snap is None:
                 self.unsupported(e, 'head() before any loop head was passed')
             o = snap.copy()
@@ -853,7 +860,12 @@ class CallMixin:
             s = st.copy()
             if cond != MAY:
                 try:
-                    s.assume(self.eval_clause(s, cond, env, info, old_st=old))
+                    pv = s.copy()
+                    pv.heap = dict(old.heap)       # conditions of `raises` speak about the pre-state
+                    n0 = len(pv.pc)
+                    s.assume(self.eval_clause(pv, cond, env, info, old_st=old))
+                    for f in pv.pc[n0:]:
+                        s.assume(f)
                 except Unsupported:
                     pass
             for nm, cl in c.raises_post.get(cls, {}).items():
@@ -870,7 +882,12 @@ class CallMixin:
         for cls, cond in c.raises.items():
             if cond != MAY:
                 try:
-                    st.assume(z3.Not(self.eval_clause(st, cond, env, info, old_st=old)))
+                    pv = st.copy()
+                    pv.heap = dict(old.heap)
+                    n0 = len(pv.pc)
+                    st.assume(z3.Not(self.eval_clause(pv, cond, env, info, old_st=old)))
+                    for f in pv.pc[n0:]:
+                        st.assume(f)
                 except Unsupported:
                     pass
         for nm, cl in c.ensures.items():
@@ -912,7 +929,7 @@ class CallMixin:
         if name in self.reg.classes:
             return self.reg.classes[name].key
         import builtins
-        if hasattr(builtins, name):
+        if isinstance(getattr(builtins, name, None), type) and issubclass(getattr(builtins, name), BaseException):
             return 'builtins:' + name
         # look in the function's module and in aiocoap.error
         for modname in ([info.module.name] if info else []) + ['aiocoap.error']:
